@@ -259,6 +259,12 @@ Theorem c29_model_satisfies_monitor_coal : forall items us rs,
 Proof. exact model_coal_monitor. Qed.
 Print Assumptions c29_model_satisfies_monitor_coal.
 
+(* ... and on the writer cases, for ANY limits and ANY op history *)
+Theorem c29_model_satisfies_monitor_writer : forall hw limit ops,
+  C29_monitor (C29Writer hw limit ops (wrun (newChannelState hw limit, 0) 0 ops)) = 0.
+Proof. exact model_writer_monitor. Qed.
+Print Assumptions c29_model_satisfies_monitor_writer.
+
 (* non-vacuity: a batch with a coalesced duplicate, a retry of a stored message and a
    key reuse, over the strict store: the duplicate and the retry return the original
    (id, seq), the reuse is rejected, one message is stored *)
